@@ -45,6 +45,10 @@ known("C17","C17-v1-sdk-input-validation","the v1 client runs the SDK's input.Va
 known("C17","C17-v2-empty-container-as-null","the two clients disagree on empty binary values, lists, maps: the v2 client returns them as NULL (C10's finding C10-v2-empty-container-as-null, pinned by the v2 TestMapTypesToDynamo), the v1 client returns them unchanged. Attributed only when turning every empty container of the v1 answer into NULL yields exactly the v2 answer",
  ["C17|after Put(value tree)|observe %s|explained-by-empty-container-returned-as-NULL@v1" % o for o in ("GetItem|item","Scan|items","Query|items")],
  {"history":["CreateTable tab (h:S)","PutItem {h:k1, v:L[]}"],"op":"GetItem k1: v1 {v: L[]}, v2 {v: NULL}"})
+fixed("C18","C18-updatetable-partial-index-changes","an UpdateTable whose later index change fails","UpdateTable [Create gsy, Delete nosuchindex] returned ResourceNotFoundException but kept gsy (and rolled back only the attribute definitions); [Delete gsx, Delete nosuchindex] failed but removed gsx; reported by C18 and C08 (commit 8d7464f)")
+known("C06","C06-dotted-alias-read-as-path","a name placeholder whose name contains dots (#d -> \"d.e\") and names no attribute of the item is read as a document path: with a map d holding a member e, attribute_exists(#d) is true and comparisons see d.e's member. Environment.Get splits the dealiased name on '.' when the exact attribute is absent; the interpreter's own tests rely on aliases that stand for dotted paths (TestEvalSetUpdate 'SET :nestedMap.#pos = #pos + :one', TestEvalUpdateError): returning 'missing' there fails both. Attributed only when the answer is exactly what reading the alias as a path predicts",
+ ["C06|placeholder-naming-a-dotted-attribute|explained-by-alias-read-as-document-path"],
+ {"expression":"attribute_exists(#d)","names":{"#d":"d.e"},"item":"{d: M{e: S decoy}}","accepted":"F","observed":"T"})
 fixed("C06","C06-cross-type-comparison-panic","comparing values of different types no longer panics","'n = :s', 'n < :s' and every other comparison between values of different scalar types crashed with an interface-conversion panic")
 fixed("C06","C06-list-index-past-end-panic","a list position past the end","a condition on l[5] of a shorter list crashed with index out of range")
 fixed("C06","C06-attribute-exists-null","attribute_exists is true for an attribute of type NULL","attribute_exists was false (attribute_not_exists true) for an attribute holding NULL")
@@ -52,7 +56,7 @@ fixed("C06","C06-functions-on-missing-attribute","condition functions on a missi
 fixed("C06","C06-in-between-path-operands","IN and BETWEEN accept document paths","'m.x IN (:v)' and 'l[0] BETWEEN :a AND :b' were rejected with 'identifier expected'")
 fixed("C06","C06-binary-set-equality-order","binary sets compare as sets","two binary sets with the same members in a different order were unequal")
 known("C06","C06-contains-set-operand-subset","contains(path, :v) with a set-typed attribute and an operand that is a set of the same type answers the subset test (true when every member of :v is in the attribute) where DynamoDB only accepts an element of the set as operand (false or a validation error); the subset behaviour of the set objects' Contains is pinned by the repository's own TestStringSetContains / TestNumberSetContains / TestBinarySetContains",
- ["C06|contains|path[%s]:%s|val:%s|accepted{F,E}|got=T" % (p,t,t) for p in ["a","#a","m.x","m.#x","l[0]","l[1]","m.l[0].x"] for t in ["SS","NS","BS"]],
+ ["C06|contains|path[%s]:%s|val:%s|accepted{F,E}|got=T" % (p,t,t) for p in ["a","#a","m.x","m.#x","#d(dotted name)","m.#k(dotted key)","l[0]","l[1]","m.l[0].x"] for t in ["SS","NS","BS"]],
  {"expression":"contains(a, :v)","item":"{a: SS[b,z]}","values":"{:v: SS[b,z]}","observed":"true"})
 fixed("C07","C07-set-aliases-value","SET assigns a copy","'SET c = a' shared the object of a (a later action on a changed c; 'SET u.k[1].n = u' built a cyclic document and overflowed the stack)")
 fixed("C07","C07-rhs-reads-updated-item","every SET right-hand side reads the pre-update item","right-hand sides read values already changed by earlier actions of the same expression (SET a = b, b = a; ADD a :n SET c = a; REMOVE a SET b = a)")
@@ -81,7 +85,7 @@ fixed("C09","C09-add-delete-nontoplevel-silent","ADD and DELETE on anything but 
 fixed("C09","C09-condition-as-function-operand","a condition cannot be the operand of a function","'attribute_exists(a = b)' was evaluated")
 fixed("C10","C10-empty-binary-unsupported","an item holding an empty binary value can be updated","any UpdateItem or condition on an item holding an empty binary value failed with 'value type is not supported yet'")
 known("C10","C10-v2-empty-container-as-null","the SDK v2 client returns empty binary values, empty lists and empty maps as NULL, at the top level and nested, on every read path (the v2 mapper chooses the type by len() != 0 tests and falls through to NULL); pinned by the repository's own TestMapTypesToDynamo and TestUpdateExpressions/remove. Attributed only when the value read equals the value written with every empty container replaced by NULL",
- ["C10|%s|value-changed|explained-by-empty-container-returned-as-NULL=true|%s@v2" % (p,w) for p in ("GetItem","Query","Scan","BatchGetItem","GetItem-after-unrelated-UpdateItem") for w in ("top","nested")],
+ ["C10|%s|value-changed|explained-by-empty-container-returned-as-NULL=true|%s@v2" % (p,w) for p in ("GetItem","Query","Scan","Query(Limit 1)","Scan(Limit 1)","Query(index)","Scan(index, Limit 1)","BatchGetItem","GetItem-after-unrelated-UpdateItem") for w in ("top","nested")],
  {"op":"v2 PutItem {h:k, v: L[]} then GetItem -> v: NULL"})
 fixed("C12","C12-untouched-number-reserialised","an update keeps the stored representation of attributes whose value did not change","any UpdateItem re-serialised every number of the item through float64: an untouched 38-digit attribute was rounded to 17 digits")
 known("C12","C12-numbers-are-float64","numbers are IEEE doubles inside the expression interpreter: numerals that differ beyond 15-17 significant digits compare equal (9007199254740993 = 9007199254740992), 0.1 + 0.2 is 0.30000000000000004, set membership and BETWEEN/IN inherit it. Replacing float64 by a decimal type is a redesign of interpreter/language/object.go. Attributed only when the answer is exactly what double arithmetic predicts",
